@@ -21,6 +21,9 @@
 #include "vf.hpp"
 #include "forkrun.hpp"
 #include "heapfill.hpp"
+#ifdef C10_FIBERS
+#include "vsched.hpp"      // OpenMP teams as fibers: 17 threads select the row-merge SpGEMM and the level-scheduled sweeps
+#endif
 
 using namespace amgcl;
 typedef backend::builtin<double> B;
@@ -258,6 +261,36 @@ int main(int argc, char **argv) {
     // a few 4x4 patterns with positive rows
     for (uint64_t off : {0x111ull, 0xfffull, 0x842ull, 0x0f0ull, 0xa5aull}) for (int rule = 0; rule < 3; ++rule) mats.push_back(make_mat(4, off, rule));
     std::vector<Cfg> cfgs = configs(vf::quick());
+#ifdef C10_FIBERS
+    // unit "fibers17": the same oracle with every OpenMP region executed by a team of 17 (and 5) fibers, on a reduced product
+    {
+        std::vector<Mat> fm = { grid2d(4), grid2d(9), grid3d(3, 4, 5), poisson1d(9, "poisson1d_9"), two_blocks(), make_mat(3, 0x2d, 2) };
+        std::vector<Cfg> fc;
+        for (auto c : COARS) for (auto r : {"spai0", "gauss_seidel", "ilu0", "chebyshev"}) for (auto sv : {"cg", "idrs"}) {
+            Cfg g; g.name = vf::KS() << "amg." << c << "." << r << "." << sv;
+            g.p.put("precond.class", "amg"); g.p.put("precond.coarsening.type", c); g.p.put("precond.relax.type", r); g.p.put("precond.coarse_enough", 2);
+            g.p.put("solver.type", sv); g.p.put("solver.maxiter", 10);
+            fc.push_back(g);
+        }
+        if (vf::section("c10f")) {
+            std::vector<Case> batch;
+            for (int nt : {17, 5}) {
+                vs::cfg().max_threads = nt;
+                for (auto &m : fm) for (auto &c : fc) {
+                    std::string key = vf::KS() << "c10f|" << nt << "|" << m.name << "|" << c.name;
+                    if (!vf::take([&]{ return key; })) continue;
+                    vf::nontrivial(vf::hstr(key));
+                    batch.push_back(Case{&m, &c, key});
+                    if (batch.size() >= 6) run_batch(batch);
+                }
+                run_batch(batch);
+            }
+            vs::cfg().max_threads = 1;
+            vf::space("teams of 17 and 5 fibers (row-merge SpGEMM, level-scheduled Gauss-Seidel / ILU solves, thread-seeded IDR(s)): 6 matrices x 4 coarsenings x 4 relaxations x {cg, idrs} x 7 environment answers");
+        }
+        return vf::finish();
+    }
+#endif
 
     vf::sample_str("case: matrix " + mats[40].name + " (3x3 pattern, rule = sign assignment) x config " + cfgs[5].name + " x environments (fill,prelude) in {(00,none),(FF,A),(AA,B),(LCG,none),(LCG,A),(00,B),(00,none) again}");
     if (vf::section("c10")) {
